@@ -91,6 +91,21 @@ def run(tier):
             else:
                 rep.violated(key, "R09.noalloc", "a.assign(first, last) (%s): no storage-free path is taken when the range has as many items as the array's leading size "
                              "(the in-place path is guarded by something else than distance(first, last) == size())" % tag, dict())
+        for nview in ("assign_view", "assign_cview", "assign_other_alloc_array"):
+            # assignment from a view / an array of another type with the array's own extents is an element-wise assignment into the existing storage
+            if nview not in res:
+                continue
+            key = "R09.noalloc@%s(same extents)" % nview
+            bad = []
+            for r in res[nview]:
+                eq = [v for c, v in r["pc"].items() if re.search(r"operator==\(extensions_t const&(, extensions_t const&)?\)|extensions_t::operator==", repr(c))]
+                if eq and eq[0] and any(e[0] == "alloc" for e in r["events"]):
+                    bad.append(r)
+            if bad:
+                rep.violated(key, "R09.noalloc", "%s with equal extents allocates (%s): an operation that needs no new storage can now fail, and pointers into the array are invalidated"
+                             % (mod.ops[nview]["body"], tag), dict())
+            else:
+                rep.ok(key + "#" + tag, "R09.noalloc", None)
         if "assign_copy" in res:
             key = "R09.noalloc@assign_copy(same extents)"
             bad = []
